@@ -114,9 +114,9 @@ def outcome(p, d):
     if o['kind'] == 'RET':
         return ('OK', o['value'])
     if o['kind'] == 'PARTIAL':
-        return ('PARTIAL', o['index'], o['value'])
+        return ('PARTIAL', (o['index'], o.get('line'), o.get('column')), o['value'])
     if o['kind'] == 'ERROR':
-        return ('ERROR', o['index'])
+        return ('ERROR', (o['index'], o.get('line'), o.get('column')))
     if o['kind'] == 'EXC':
         return ('EXC', o['type'])
     return ('DIVERGES',)
@@ -239,7 +239,7 @@ def run(tier, seed):
     chk = Check('C12', tier, seed)
     chk.rule = ('bootstrap generations 0 (shipped sourcer/parser.py), 1 (grammar.txt compiled by the current code) and 2 (compiled after '
                 'installing generation 1): gen1 accepts grammar.txt, gen1 text is reproducible, gen2 text == gen1 text; gen0 and gen1 are '
-                'compared (tree incl. positions, or error class and index) on an enumerated corpus: every description in the repository '
+                'compared (tree incl. positions, or error class and position: index, line, column) on an enumerated corpus: every description in the repository '
                 '(tests, README, docs, examples, grammar.txt), every single-token deletion / duplication / neighbour swap of those '
                 '(thorough: also every single-character deletion for descriptions <= 400 characters), and the descriptions rendered by the '
                 'universes of C01-C06 and C19; non-trivial = descriptions that generation 0 rejects')
